@@ -127,6 +127,9 @@ func (t *tr2) assignedOutside(n ast.Node, exclude ...types.Object) []types.Objec
 			if tgt, m, _, ok := t.atomicCall(x); ok && (m == "Add" || m == "Store") {
 				add(tgt)
 			}
+			if sx, _, f := t.extFieldOf(x.Fun); f != nil && f.ext == "call" {
+				add(sx.X)
+			}
 			if sel, ok := x.Fun.(*ast.SelectorExpr); ok { // call of a receiver-mutating method
 				if s := t.info.Selections[sel]; s != nil && s.Kind() == types.MethodVal {
 					if m, ok := s.Obj().(*types.Func); ok {
@@ -361,6 +364,23 @@ func (t *tr2) exprStmt(x *ast.ExprStmt, c *fctx, rest func() string) string {
 		bs = append(bs, bind{pat: tmp, rhs: "(be_put " + itoa(beWidth[m]) + " " + seg + " " + v + ")"})
 		t.assign(lv, "(splice "+base+" "+lo+" "+tmp+")", &bs)
 		return wrapBinds(bs, rest())
+	}
+	// a call the models do not observe (logging): operands evaluated, call dropped
+	if sel, ok := call.Fun.(*ast.SelectorExpr); ok {
+		if f, ok := t.info.Uses[sel.Sel].(*types.Func); ok && f.Pkg() != nil && ignoredCalls2[f.Pkg().Path()+"."+f.Name()] {
+			for _, a := range call.Args {
+				if _, isStr := t.constString(a); isStr {
+					continue
+				}
+				at := t.info.TypeOf(a)
+				if _, isInt := intKind(at); isInt || isBool(at) || isBytes(at) || isErrorType(at) {
+					_ = t.expr(a, &bs)
+				} else {
+					t.fail(a, "operand of an ignored call has a type outside the subset: %s", at)
+				}
+			}
+			return wrapBinds(bs, rest())
+		}
 	}
 	// a call of a translated function whose results are dropped
 	_ = t.call(call, &bs)
@@ -749,10 +769,14 @@ func (t *tr2) rangeStmt(x *ast.RangeStmt, c *fctx, rest func() string) string {
 	case isString(xt):
 		t.fail(x, "range over a string yields runes (UTF-8 decoding): unsupported; index its bytes instead")
 		return rest()
-	case isBytes(xt), isBoolList(xt):
+	case isBytes(xt), isBoolList(xt), func() bool { _, ok := t.isStructList(xt); return ok }():
 		ety := "Z"
 		if isBoolList(xt) {
 			ety = "bool"
+		}
+		if nn, ok := t.isStructList(xt); ok {
+			r := t.record(nn)
+			ety = t.q(r.mod, r.name)
 		}
 		loop = "(range_loop (R:=" + c.rty + ") (fun (" + k + " : Z) (" + v + " : " + ety + ") " + funPat(pat) + " =>\n " + body + ") 0 " + xs + " " + val + ")"
 	default:
